@@ -400,6 +400,38 @@ def a1_traces(ctx):
             'the raw reader is built with %s' % {k_: unparse(v_) for k_, v_ in got_kw.items()}, 'arguments of get_ephys_reader not recognised')
 
 
+def t2_spike_attributes(ctx):
+    """Extra per-spike attribute files: every spike_<name>.npy whose <name> is not one of the reserved ones is loaded under <name>. The reserved names are
+    excluded by EXACT membership: a prefix / substring test also drops attributes whose name merely begins with a reserved word (spike_timestamps.npy)."""
+    repo = ctx.repo
+    cls = repo.cls(M, 'TemplateModel')
+    fi = repo.lookup_method(cls, '_load_spike_attributes')
+    if fi is None:
+        raise AnchorMissing('TemplateModel._load_spike_attributes')
+    clo = repo.transparent_closure(fi)
+    tests = [(f_, i_) for f_ in clo for i_ in f_.nodes(ast.If) if any(isinstance(n, ast.Name) and n.id == 'SKIP_SPIKE_ATTRS' for n in ast.walk(i_.test))]
+    if not tests:
+        return ctx.undecided('C04.T2', fi, 'the test that skips the reserved spike_*.npy files was not found')
+    f_, i_ = tests[0]
+    t_ = i_.test
+    if Pat().any(['V_n in SKIP_SPIKE_ATTRS', 'V_n not in SKIP_SPIKE_ATTRS', 'E_n in SKIP_SPIKE_ATTRS', 'E_n not in SKIP_SPIKE_ATTRS'], t_):
+        ctx.holds('C04.T2', f_, 'reserved spike_*.npy names are excluded by exact membership: every other attribute file is loaded', t_)
+    elif any(isinstance(n, ast.Call) and q.method_name(n) in ('startswith', 'endswith', 'find', 'index', 'count') for n in ast.walk(t_)) or \
+            any(isinstance(n, ast.Call) and dotted(n.func) in ('any', 're.match', 're.search') for n in ast.walk(t_)):
+        ctx.violated('C04.T2', f_, t_, 'reserved names are excluded by `%s`: an attribute file whose name only begins with / contains a reserved word (spike_timestamps.npy, '
+                     'spike_amplitudes_scaled.npy) is dropped from spike_attributes' % unparse(t_))
+    else:
+        ctx.undecided('C04.T2', f_, 'form of the reserved-name test `%s` not recognised' % unparse(t_), t_)
+    tbl = repo.module(M).consts.get('SKIP_SPIKE_ATTRS')
+    names = [const_value(e) for e in tbl.elts] if isinstance(tbl, (ast.Tuple, ast.List, ast.Set)) else None
+    if names is None:
+        ctx.undecided('C04.T2', fi, 'the table of reserved spike_*.npy names was not recognised')
+    else:
+        must = {'clusters', 'templates', 'times', 'amplitudes'}
+        ctx.tri(must <= set(names) and all(isinstance(x, str) for x in names), bool(must - set(names)), 'C04.T2', fi, 'SKIP_SPIKE_ATTRS', 'the reserved names cover the dedicated per-spike files (%s)' % sorted(names),
+                'the reserved names %s do not cover %s: a dedicated per-spike file is loaded a second time as an attribute' % (sorted(names), sorted(must - set(names))))
+
+
 def d1_defaults(ctx):
     repo = ctx.repo
     ra = repo.func(M, 'read_array')
@@ -605,6 +637,7 @@ def p1_monotonic(ctx, f, effs):
 def run(ctx):
     f, effs = f1_effects(ctx)
     t1_t2_names(ctx)
+    ctx.part('C04.T2', t2_spike_attributes)
     u1_units(ctx)
     a1_traces(ctx)
     d1_defaults(ctx)
